@@ -314,14 +314,22 @@ func (h *Handler) handleMessage(ss *ShellStream, data []byte, flags uint8) {
 }
 
 // handleStdin writes stdin data to the session.
+//
+// The write may block until the command reads its stdin, so it must not be
+// done while holding ss.mu: the output pumps take ss.mu on every iteration,
+// and a command that copies stdin to stdout (cat, tee, head ...) stops reading
+// once its stdout pipe is full. Holding the lock here then stalls the pumps,
+// the pipes never drain, and the peer's frame loop is blocked for good.
 func (h *Handler) handleStdin(ss *ShellStream, data []byte) {
 	ss.mu.Lock()
-	defer ss.mu.Unlock()
+	ptySession := ss.PTYSession
+	session := ss.Session
+	ss.mu.Unlock()
 
-	if ss.PTYSession != nil {
-		ss.PTYSession.Write(data)
-	} else if ss.Session != nil {
-		ss.Session.Stdin().Write(data)
+	if ptySession != nil {
+		ptySession.Write(data)
+	} else if session != nil {
+		session.Stdin().Write(data)
 	}
 }
 
